@@ -490,12 +490,168 @@ func installTypeRoles(p *core.Prog) {
 	}
 }
 
+// fieldRoles: unexported fields the rules name. A field that no longer exists by name is found by its
+// type (when that is unique in the struct) or by what a method does with it.
+type fieldRole struct {
+	rel, typ, name string
+	role           func(p *core.Prog, n *types.Named, f *types.Var, idx int) bool
+}
+
+func uniqueFieldOfType(pred func(t types.Type) bool) func(p *core.Prog, n *types.Named, f *types.Var, idx int) bool {
+	return func(p *core.Prog, n *types.Named, f *types.Var, idx int) bool {
+		st := n.Underlying().(*types.Struct)
+		cnt := 0
+		for i := 0; i < st.NumFields(); i++ {
+			if pred(st.Field(i).Type()) {
+				cnt++
+			}
+		}
+		return cnt == 1 && pred(f.Type())
+	}
+}
+
+func isBasicKind(k types.BasicKind) func(types.Type) bool {
+	return func(t types.Type) bool {
+		b, ok := t.(*types.Basic)
+		return ok && b.Kind() == k
+	}
+}
+
+var fieldRoleTable = []fieldRole{
+	{"types/blob", "BReader", "readBytes", uniqueFieldOfType(isBasicKind(types.Int64))},
+	{"types/blob", "BReader", "reader", func(p *core.Prog, n *types.Named, f *types.Var, idx int) bool {
+		// the stream Read reads from
+		read := p.MethodOf(n, "Read")
+		found := false
+		if read != nil {
+			core.Calls(read, func(c ssa.CallInstruction) {
+				if !isInvoke(c, "Read") {
+					return
+				}
+				if ld, ok := c.Common().Value.(*ssa.UnOp); ok {
+					if fa, ok := ld.X.(*ssa.FieldAddr); ok && fa.Field == idx && core.NamedOf(fa.X.Type()) == n {
+						found = true
+					}
+				}
+			})
+		}
+		return found
+	}},
+	{"types/manifest", "common", "rawBody", uniqueFieldOfType(func(t types.Type) bool {
+		sl, ok := t.Underlying().(*types.Slice)
+		return ok && isBasicKind(types.Byte)(sl.Elem()) || ok && isBasicKind(types.Uint8)(sl.Elem())
+	})},
+	{".", "tarReadData", "tr", uniqueFieldOfType(func(t types.Type) bool { return core.IsNamed(t, "archive/tar", "Reader") })},
+	{".", "tarReadData", "handleAdded", func(p *core.Prog, n *types.Named, f *types.Var, idx int) bool {
+		// the flag that asks for another pass: a bool field stored true next to a store into the handler table
+		if !isBasicKind(types.Bool)(f.Type()) {
+			return false
+		}
+		st := n.Underlying().(*types.Struct)
+		cnt := 0
+		for i := 0; i < st.NumFields(); i++ {
+			if isBasicKind(types.Bool)(st.Field(i).Type()) && !strings.Contains(strings.ToLower(st.Field(i).Name()), "found") {
+				cnt++
+			}
+		}
+		return cnt == 1 && !strings.Contains(strings.ToLower(f.Name()), "found")
+	}},
+	{".", "tarReadData", "handlers", uniqueFieldOfType(func(t types.Type) bool {
+		m, ok := t.Underlying().(*types.Map)
+		if !ok {
+			return false
+		}
+		_, isFn := m.Elem().Underlying().(*types.Signature)
+		return isFn
+	})},
+	{".", "RegClient", "schemes", uniqueFieldOfType(func(t types.Type) bool {
+		m, ok := t.Underlying().(*types.Map)
+		return ok && core.IsModNamed(m.Elem(), "scheme", "API")
+	})},
+	{".", "imageOpt", "forceRecursive", func(p *core.Prog, n *types.Named, f *types.Var, idx int) bool {
+		// the field the option ImageWithForceRecursive sets
+		opt := p.Func(".", "ImageWithForceRecursive")
+		found := false
+		if opt != nil {
+			for _, g := range core.WithAnon(opt) {
+				for _, fs := range fieldStores([]*ssa.Function{g}, func(nn *types.Named, _ string) bool { return nn == n }) {
+					if fs.Addr.Field == idx {
+						found = true
+					}
+				}
+			}
+		}
+		return found
+	}},
+	{"internal/reghttp", "Resp", "readMax", func(p *core.Prog, n *types.Named, f *types.Var, idx int) bool {
+		// the expected length: the int64 field that the request's ExpectLen is stored into
+		if !isBasicKind(types.Int64)(f.Type()) {
+			return false
+		}
+		found := false
+		for _, fs := range fieldStores(pkgFuncs(p, "internal/reghttp"), func(nn *types.Named, _ string) bool { return nn == n }) {
+			if fs.Addr.Field != idx {
+				continue
+			}
+			for _, o := range core.Origins(fs.Store.Val, core.SliceOpts{}) {
+				if o.Kind == core.OField && o.Field == "ExpectLen" {
+					found = true
+				}
+			}
+		}
+		return found
+	}},
+}
+
+// installFieldRoles fills core.FieldAlias for the fields of the table that no longer exist by name.
+func installFieldRoles(p *core.Prog) {
+	for k := range core.FieldAlias {
+		delete(core.FieldAlias, k)
+	}
+	for _, fr := range fieldRoleTable {
+		n := p.Named(fr.rel, fr.typ)
+		if n == nil {
+			continue
+		}
+		st, ok := n.Underlying().(*types.Struct)
+		if !ok {
+			continue
+		}
+		exists := false
+		for i := 0; i < st.NumFields(); i++ {
+			if st.Field(i).Name() == fr.name {
+				exists = true
+			}
+		}
+		if exists {
+			continue
+		}
+		var found []*types.Var
+		for i := 0; i < st.NumFields(); i++ {
+			// a field that another entry owns by name keeps that identity
+			owned := false
+			for _, o := range fieldRoleTable {
+				if o.rel == fr.rel && o.typ == fr.typ && o.name == st.Field(i).Name() {
+					owned = true
+				}
+			}
+			if !owned && fr.role(p, n, st.Field(i), i) {
+				found = append(found, st.Field(i))
+			}
+		}
+		if len(found) == 1 {
+			core.FieldAlias[n.Obj().Pkg().Path()+"."+fr.typ+"."+found[0].Name()] = fr.name
+		}
+	}
+}
+
 // installRoles makes p resolve renamed anchors by role and records their canonical names.
 func installRoles(p *core.Prog) {
 	if roleProg == p {
 		return
 	}
 	installTypeRoles(p)
+	installFieldRoles(p)
 	roleProg, roleAlias = p, map[*ssa.Function]string{}
 	resolving := map[string]bool{}
 	cache := map[string]*ssa.Function{}
